@@ -28,6 +28,7 @@ def main():
     ap.add_argument("--tier", default="quick")
     ap.add_argument("--skip-baseline", action="store_true")
     ap.add_argument("--seeds", default="0")
+    ap.add_argument("--clone", default=None, help="screening: apply to this clone of /repo (VERIF_REPO) instead of /repo itself; nothing is kept")
     a = ap.parse_args()
     seed = Path(a.seed).resolve()
     meta = json.loads((seed / "meta.json").read_text())
@@ -61,17 +62,23 @@ def main():
         sh(f"git -C /repo worktree remove --force {wt}")
         shutil.rmtree(wt.parent, ignore_errors=True)
 
-    # the check against /repo itself with the patch applied
-    st = sh("git -C /repo status --porcelain --untracked-files=no").stdout.strip()
+    # the check against /repo itself (or a screening clone) with the patch applied
+    target = a.clone or "/repo"
+    if a.clone:
+        if not Path(a.clone).exists():
+            sh(f"git clone -q /repo {a.clone}")
+        sh(f"git -C {target} checkout -q -- . && git -C {target} fetch -q /repo HEAD && git -C {target} reset -q --hard FETCH_HEAD")
+    st = sh(f"git -C {target} status --porcelain --untracked-files=no").stdout.strip()
     if st:
-        print("refusing: /repo has uncommitted changes", st)
+        print(f"refusing: {target} has uncommitted changes", st)
         return 2
     caught = {}
+    extra_env = {"VERIF_REPO": a.clone} if a.clone else {}
     try:
-        r = sh(f"git -C /repo apply --whitespace=nowarn {patch}")
+        r = sh(f"git -C {target} apply --whitespace=nowarn {patch}")
         assert r.returncode == 0, r.stderr
         for s in a.seeds.split():
-            r = sh(f"./check {prop} --tier {a.tier}", cwd=VERIF, env=dict(os.environ, VERIF_SEED=s), timeout=7200)
+            r = sh(f"./check {prop} --tier {a.tier}", cwd=VERIF, env=dict(os.environ, VERIF_SEED=s, **extra_env), timeout=7200)
             lines = [l for l in r.stdout.splitlines() if l.startswith("VIOLATION")]
             caught[s] = {"exit": r.returncode, "violations": lines[:3]}
             if lines:
@@ -83,12 +90,13 @@ def main():
                 except Exception:
                     pass
     finally:
-        sh("git -C /repo checkout -- .")
+        sh(f"git -C {target} checkout -- .")
     res["check"] = caught
+    res["applied_to"] = target
     res["caught"] = any(v["exit"] == 1 and v["violations"] for v in caught.values())
     res["confirmed"] = bool(res.get("demo_with_change") == 1 and res.get("demo_clean") == 0 and res.get("imports") and res.get("baseline_passes", True))
     print(json.dumps(res, indent=1))
-    if a.keep_as and res["confirmed"]:
+    if a.keep_as and res["confirmed"] and not a.clone:
         dest = VERIF / "seeded" / a.keep_as
         dest.mkdir(parents=True, exist_ok=True)
         shutil.copy(patch, dest / "patch.diff")
